@@ -11,11 +11,72 @@ CLASS_VAR = {
     "BaseRR": 0x80000000, "BaseRRR": 0x80000000, "BaseRRRR": 0x80000000, "BaseBranchCmp": 0x80000000, "BaseCInc": 0x80000000, "BaseCSel": 0x80000000,
     "BaseCSet": 0x80000000, "BaseMovKNZ": 0x80000000, "BaseMvnNeg": 0x80000000,
     "BaseAtomicOp": 0x40000000, "BaseRM_NoImm": 0x40000000, "BaseStx": 0x40000000, "BaseStxp": 0x40000000, "BaseLdxp": 0x40000000,
-    "BaseAtomicSt": 0x4000001F, "BaseBfc": 0x80400000, "BaseBfi": 0x80400000, "BaseBfm": 0x80400000, "BaseBfx": 0x80400000, "BaseExtend": 0x80400000,
+    "BaseAtomicSt": 0x4000001F, "BaseAtomicCasp": 0x40000000, "BaseBfc": 0x80400000, "BaseBfi": 0x80400000, "BaseBfm": 0x80400000, "BaseBfx": 0x80400000, "BaseExtend": 0x80400000,
     "BaseExtract": 0x80400000, "BaseCCmp": 0x80000800,
     "ISimdSV": 0x40C00000, "ISimdVV": 0x50C00000, "ISimdVVV": 0x50C00000, "ISimdWWV": 0x40C00000, "ISimdVVVI": 0x40000000, "ISimdVVVx": 0, "ISimdVVx": 0,
     "SimdFccmpFccmpe": 0x00C00000, "SimdFcmpFcmpe": 0x00C00008,
 }
+
+
+# classes with several opcode constants per table row: "<class>.<variant>" -> bits the class ORs in (sf at 31; x_offset 30/22 and the
+# pre-index bit 11 of the load/store classes; Rd = 11111 of CMP/CMN/TST; N and imms<5> of the shift-by-immediate aliases; the type bits
+# 23:19, 15:14 that pick_fp_opcode() XORs in for the FP classes; Q 30, scalar 28, size 23:22 of the SIMD classes; size 31:30 + opc<1> 23 of
+# the SIMD load/store classes). Which database rows a variant is compared with is decided by the operand syntaxes of the row (row_filter).
+VARIANT_VAR = {
+    "BaseAddSub.shifted": 0x80000000, "BaseAddSub.extended": 0x80000000, "BaseAddSub.immediate": 0x80000000,
+    "BaseCmpCmn.shifted": 0x8000001F, "BaseCmpCmn.extended": 0x8000001F, "BaseCmpCmn.immediate": 0x8000001F,
+    "BaseTst.shifted": 0x8000001F, "BaseTst.immediate": 0x8000001F, "BaseLogical.shifted": 0x80000000, "BaseLogical.immediate": 0x80000000,
+    "BaseMinMax.register": 0x80000000, "BaseMinMax.immediate": 0x80000000, "BaseShift.register": 0x80000000, "BaseShift.immediate": 0x80408000,
+    "BaseLdSt.uoffset": 0x40400800, "BaseLdSt.prepost": 0x40400800, "BaseLdSt.register": 0x40400800, "BaseLdSt.literal": 0x40400800,
+    "BaseLdpStp.offset": 0x80000000, "BaseLdpStp.prepost": 0x80000000, "BaseRM_SImm9.offset": 0x40400000, "BaseRM_SImm9.prepost": 0x40400000,
+    "BasePrfm.literal": 0, "BasePrfm.soffset": 0, "BasePrfm.register": 0,
+    "BaseRM_SImm10.opcode": 0x00000800, "SimdLdurStur.opcode": 0xC0800000, "SimdShiftES.opcode": 0x40C00000,
+    "ISimdVVVV.opcode": 0x50C00000, "FSimdSV.opcode": 0x60000000, "SimdFcadd.opcode": 0x40C00000, "SimdSm3tt.opcode": 0, "ISimdVVVVx.opcode": 0,
+    "FSimdVV.scalar": 0x00F8C000, "FSimdVV.vector": 0x40F8C000, "FSimdVVV.scalar": 0x00F8C000, "FSimdVVV.vector": 0x40F8C000,
+    "FSimdVVVV.scalar": 0x00F8C000, "FSimdVVVe.scalar": 0x00F8C000, "FSimdVVVe.vector": 0x40F8C000,
+    "FSimdVVVe.element_scalar": 0x00C00000, "FSimdVVVe.element_vector": 0x40C00000, "FSimdPair.scalar": 0x20F8C000, "FSimdPair.vector": 0x40F8C000,
+    "ISimdVVVe.regular": 0x50C00000, "ISimdVVVe.element": 0x50C00000, "SimdShift.register": 0x50C00000, "SimdShift.immediate": 0x50000000,
+    "SimdLdSt.uoffset": 0xC0800800, "SimdLdSt.prepost": 0xC0800800, "SimdLdSt.register": 0xC0800800, "SimdLdSt.literal": 0xC0800800,
+    "SimdLdpStp.offset": 0xC0000000, "SimdLdpStp.prepost": 0xC0000000,
+}
+IMM_KINDS = ("SAddImm", "SLogImm", "SImmLt", "SBitfield", "SImmU", "SImmS", "SVShift", "SImmRsub", "SFpImm")
+
+
+def row_filter(variant, e):
+    """does the table variant apply to this database row? (decided by the row's operand syntaxes, mirroring the case split of the encoder)"""
+    syn = e["syn"]
+    K = [s[0] for s in syn]
+    mo = [s for s in syn if s[0] == "SMemOff"]
+    vecs = [s for s in syn if s[0] == "SVec"]
+    if variant == "shifted":
+        return "SShift" in K and "SExtReg" not in K
+    if variant == "extended":
+        return "SExtReg" in K
+    if variant == "immediate":
+        return any(k in K for k in IMM_KINDS)
+    if variant == "register":
+        return ("SMemIdx" in K) if any(k.startswith("SMem") for k in K) else not any(k in K for k in IMM_KINDS)
+    if variant in ("uoffset", "soffset"):
+        return bool(mo) and mo[0][4] is False and mo[0][6] == 0
+    if variant == "prepost":
+        return (bool(mo) and mo[0][6] in (1, 2)) or "SMemPair" in K
+    if variant == "literal":
+        return "SMemLit" in K
+    if variant == "offset":
+        return (bool(mo) and mo[0][6] == 0) or "SMemPair" in K
+    if variant == "scalar":
+        return bool(vecs) and vecs[0][2] == 0 and "SVecElem" not in K
+    if variant == "vector":
+        return bool(vecs) and vecs[0][2] != 0 and "SVecElem" not in K
+    if variant == "element_scalar":
+        return "SVecElem" in K and bool(vecs) and vecs[0][2] == 0
+    if variant == "element_vector":
+        return "SVecElem" in K and bool(vecs) and vecs[0][2] != 0
+    if variant == "regular":
+        return "SVecElem" not in K
+    if variant == "element":
+        return "SVecElem" in K
+    return True
 
 
 def build(ck, b):
@@ -23,14 +84,29 @@ def build(ck, b):
     rc, out, err = vlib.sh([exe], timeout=60)
     if rc != 0:
         raise RuntimeError("c02_tables failed: %s" % err[-500:])
-    by = {}
+    by, bye = {}, {}
     for e in b["sup"]:
         by.setdefault((e["row"]["name"], "ASIMD" in e["row"]["cat"]), []).append(e["row"]["idx"])
+        bye.setdefault((e["row"]["name"], "ASIMD" in e["row"]["cat"]), []).append(e)
+    ids_seen, ids_cov = set(), set()
     ents, skipped, norows = [], {}, 0
     total = 0
     for ln in out.splitlines():
         iid, name, cls, w = ln.split()
         total += 1
+        ids_seen.add(int(iid))
+        if "." in cls:
+            if cls not in VARIANT_VAR:
+                skipped[cls] = skipped.get(cls, 0) + 1
+                continue
+            c0, variant = cls.split(".")
+            rids = [e["row"]["idx"] for e in bye.get((name, not c0.startswith("Base")), []) if row_filter(variant, e)]
+            if not rids:
+                norows += 1
+                continue
+            ents.append((int(iid), name, cls, int(w), VARIANT_VAR[cls], rids))
+            ids_cov.add(int(iid))
+            continue
         if cls not in CLASS_VAR:
             skipped[cls] = skipped.get(cls, 0) + 1
             continue
@@ -39,6 +115,7 @@ def build(ck, b):
             norows += 1
             continue
         ents.append((int(iid), name, cls, int(w), CLASS_VAR[cls], rids))
+        ids_cov.add(int(iid))
     L = ["(* GENERATED by tools/c02_tables.py from the InstDB::EncodingData arrays of /repo (harness/c02_tables.cpp). Do not edit.",
          "   (instruction id, opcode word of its table row, bits the encoding class ORs in itself, ids of the supported database rows of the instruction) *)",
          "From Coq Require Import ZArith List Bool.", "From Verif Require Import A64.A64Tmpl A64.A64Sem.", "From VerifGen Require Import IsaA64Db.",
@@ -47,7 +124,7 @@ def build(ck, b):
     L += ["].", "Definition enc_table_count : Z := %d." % len(ents),
           "Lemma enc_table_agrees : forallb (table_entry_ok rows) enc_table = true.", "Proof. vm_compute. reflexivity. Qed.",
           "Lemma enc_table_counted : Z.of_nat (length enc_table) = enc_table_count.", "Proof. vm_compute. reflexivity. Qed."]
-    return {"coq": "\n".join(L) + "\n", "entries": len(ents), "ents": ents, "dumped": total, "classes_not_covered": skipped, "without_supported_rows": norows}
+    return {"coq": "\n".join(L) + "\n", "entries": len(ents), "ents": ents, "instructions_covered": len(ids_cov), "instructions_dumped": len(ids_seen), "dumped": total, "classes_not_covered": skipped, "without_supported_rows": norows}
 
 
 def disagreeing(tb, b):
